@@ -470,7 +470,8 @@ def rule_restore_flush(ctx: Ctx, repo: Repo) -> None:
     flush = g.find_calls(lambda c: isinstance(c.func, ast.Attribute) and c.func.attr == "flush" and dotted(c.func.value) == lparam)
     yields = [n for n in g.stmts() if any(isinstance(x, (ast.Yield, ast.YieldFrom)) for x in n.walk())]
     ctx.floor("R-C03.3", "sys.setprofile calls in trace_calls", len(setp), 2)
-    ctx.floor("R-C03.3", "sys.getprofile call in trace_calls", len(getp), 1)
+    ctx.check(len(getp) >= 1, "R-C03.3", tc.fq, "the previously installed profiler is read with sys.getprofile() (that is what gets restored)",
+              construct=f"{len(getp)} sys.getprofile() call(s) in trace_calls")
     ctx.floor("R-C03.3", "logger.flush call in trace_calls", len(flush), 1)
     if len(yields) != 1:
         raise AnalysisError("trace_calls does not have exactly one yield")
